@@ -197,6 +197,21 @@ def check(rep, F, tier, replay=None):
                 rep.violation("DEDUP-prim", "collect|%s" % what, "PlutusWitnesses::collect no longer de-duplicates %s with an ordered-set insert: required witnesses can be dropped (equal by a weaker test) or repeated" % what, {})
         if other:
             rep.violation("DEDUP-prim", "collect|weak|%s" % ",".join(sorted(set(H.short(o) for o in other))), "PlutusWitnesses::collect tests membership with %s: a weaker equality than the witness set's own (datums with equal value but different preserved bytes would be merged although both hashes are required)" % sorted(set(H.short(o) for o in other)), {})
+    # DATUM-id: the ordered-set de-duplication is only right because PlutusData's Ord tells different encodings apart
+    rep.rule("DATUM-id", "PlutusData's Ord (the relation every datum de-duplication uses) compares the preserved original bytes as well as the value: a datum is identified on chain by the hash of its bytes")
+    pd = [a for a in F.adts if a.endswith("plutus_data::PlutusData")]
+    if len(pd) != 1:
+        rep.lost("PlutusData not found")
+    else:
+        rep.inst("DATUM-id")
+        om = [im for im in F.impls if (im.get("trait") or "").startswith("std::cmp::Ord") and (im.get("self_adt") or im["self_ty"]) == pd[0]]
+        if not om:
+            rep.violation("DATUM-id", "PlutusData|no-ord", "PlutusData has no Ord impl any more", {})
+        elif not om[0].get("derive"):
+            mid = [m["id"] for m in om[0]["methods"] if m["name"] == "cmp"]
+            rd = {f for (a, f) in fields_read(F, mid[0], depth=2) if a == pd[0]} if mid and mid[0] in F.fns else set()
+            if "original_bytes" not in rd or "datum" not in rd:
+                rep.violation("DATUM-id", "PlutusData|ord-basis|%s" % ",".join(sorted(rd)), "PlutusData's hand-written Ord compares %s only: two datums with equal value but different preserved bytes (different hashes, both required by their inputs) collapse to one in every witness-set de-duplication" % sorted(rd), {})
     # BOOT-set: one fake bootstrap witness per distinct Byron address over inputs AND collateral
     rep.rule("BOOT-set", "fake_full_tx merges the Byron addresses of inputs and collateral in an ordered set before counting / creating fake bootstrap witnesses (an address used for both is witnessed once)")
     fid = find_fn(rep, F, "builders::tx_builder::fake_full_tx")
